@@ -5,6 +5,7 @@
   Property theorems only.
 -/
 import IpldModel.Model.Link
+import IpldModel.Lemmas.LinkMore
 namespace Ipld.Props.C06
 open Ipld Ipld.Link
 
@@ -25,19 +26,8 @@ theorem load_ok_fill_ok (trusted : Bool) (l : Lnk) (s : Stream) (d : DecRun) (re
 theorem load_ok_hashes (l : Lnk) (s : Stream) (d : DecRun) (reifyOk : Bool)
     (h : load H false l s d reifyOk = .res .ok) : hashesTo H l (hasherSaw s d) = true := by
   have hf := (load_ok_fill_ok H false l s d reifyOk h).1
-  unfold fill at hf
-  simp only [Bool.false_eq_true, if_false] at hf
-  unfold hasherSaw
-  by_cases hfd : d.failed = true
-  · simp only [hfd, if_true] at hf
-    cases hfa : s.failAt with
-    | some f => simp [hfa] at hf
-    | none => simp only [hfa] at hf; split at hf <;> simp at hf
-  · have hf' : d.failed = false := by simpa using hfd
-    simp only [hf', Bool.false_eq_true, if_false] at hf ⊢
-    split at hf
-    · rename_i hh; exact hh
-    · simp at hf
+  obtain ⟨_, h2, h3⟩ := (Link.fill_ok_iff H l s d).mp hf
+  simpa [hasherSaw, Stream.deliverable, h2] using h3
 
 /-- non-vacuity: under the identity "hash" a matching stream loads, a corrupted one is refused, a failing reifier
     turns the success into its own error. -/
